@@ -47,6 +47,33 @@ RECOG = {
 }
 # tags whose native term is the boxed Py term itself
 BOXED_TAGS = ("py", "dict", "none", "obj")
+BV64 = z3.BitVecSort(64)
+
+
+def bv_to_int_term(t):
+    return z3.BV2Int(t, False)
+
+
+def to_bv64(v):
+    """V(int|bool|bv64) -> 64-bit vector term.  Concrete ints are reduced mod 2^64; a byte
+    (element of a bytes value, 0..255 by the type invariant of bytes) is zero-extended from
+    8 bits so that the solver sees its width."""
+    if v.ty == "bv64":
+        return v.t
+    if v.ty == "bool":
+        return z3.If(v.t, z3.BitVecVal(1, 64), z3.BitVecVal(0, 64))
+    if v.ty == "py":
+        t = Py.i(v.t)
+    else:
+        t = v.t
+    ts = z3.simplify(t) if not _has_nth(t) else t
+    if z3.is_int_value(ts):
+        return z3.BitVecVal(ts.as_long() % (1 << 64), 64)
+    if z3.is_app(t) and t.decl().kind() == z3.Z3_OP_SEQ_NTH and t.arg(0).sort() == SeqI:
+        return z3.ZeroExt(56, z3.Int2BV(t, 8))
+    if z3.is_app(t) and t.decl().kind() == z3.Z3_OP_BV2INT:
+        return t.arg(0)
+    return z3.Int2BV(t, 64)
 
 
 class V:
@@ -98,6 +125,8 @@ def box(v):
     """V -> Py term"""
     if not isinstance(v, V):
         raise TypeError(f"cannot box {v!r}")
+    if v.ty == "bv64":
+        return Py.int(bv_to_int_term(v.t))
     if v.ty in BOXED_TAGS:
         return v.t
     con, acc, _ = NATIVE[v.ty]
@@ -230,6 +259,8 @@ def truthy(v):
         return z3.Length(t) > 0
     if ty == "dict":
         return z3.Length(dkeys(t)) > 0
+    if ty == "bv64":
+        return t != z3.BitVecVal(0, 64)
     if ty == "float":
         # +0.0 and -0.0 are falsy
         return z3.And(t != 0, t != 2 ** 63)
@@ -274,10 +305,14 @@ z3.RecAddDefinition(PYLEN, [_x],
     z3.If(Py.is_tuple(_x), z3.Length(Py.titems(_x)),
     z3.If(Py.is_dict(_x), z3.Length(Py.keys(_x)), z3.Length(Py.elems(_x))))))))
 
+# the items of a bytes value as Python ints: uninterpreted, characterised on demand by
+# len(BYTES_ITEMS(b)) == len(b) and BYTES_ITEMS(b)[i] == int(b[i]) (see Engine.length_bounds)
+BYTES_ITEMS = z3.Function("py.bytes_items", SeqI, SeqPy)
+
 PYITEMS = z3.RecFunction("py.items", Py, SeqPy)
 z3.RecAddDefinition(PYITEMS, [_x],
     z3.If(Py.is_list(_x), Py.items(_x), z3.If(Py.is_tuple(_x), Py.titems(_x),
-    z3.If(Py.is_dict(_x), Py.keys(_x), Py.elems(_x)))))
+    z3.If(Py.is_dict(_x), Py.keys(_x), z3.If(Py.is_bytes(_x), BYTES_ITEMS(Py.bs(_x)), Py.elems(_x))))))
 
 
 def fresh(name, ty, _n=[0]):
@@ -285,6 +320,8 @@ def fresh(name, ty, _n=[0]):
     nm = f"{name}!{_n[0]}"
     if ty in BOXED_TAGS:
         return V(ty, z3.Const(nm, Py))
+    if ty == "bv64":
+        return V(ty, z3.Const(nm, BV64))
     return V(ty, z3.Const(nm, NATIVE[ty][2]))
 
 
